@@ -1,2 +1,13 @@
 import Ufw.Props.C08
-#print axioms Ufw.Props.C08.seq_step
+#print axioms Ufw.Props.C08.req_read_wire
+#print axioms Ufw.Props.C08.req_write_wire
+#print axioms Ufw.Props.C08.resp0_wire
+#print axioms Ufw.Props.C08.resp32_wire
+#print axioms Ufw.Props.C08.ack_wire
+#print axioms Ufw.Props.C08.ack_empty_wire
+#print axioms Ufw.Props.C08.meta_wire
+#print axioms Ufw.Props.C08.request_wf
+#print axioms Ufw.Props.C08.errorResponse_wf
+#print axioms Ufw.Props.C08.ackResponse_wf
+#print axioms Ufw.Props.C08.metaFrame_wf
+#print axioms Ufw.Props.C08.emit_recv
